@@ -35,7 +35,7 @@ fn families(property: &str) -> Vec<Fam> {
         // mass failures (a client with dozens of streams loses its connection) live in the burst family
         "C08" => vec![("pubsub", "c08", None), ("reqrep", "c08", None), ("pubsub", "burst", None), ("reqrep", "burst", None)],
         // "all reachable router states" includes the states reached through faults and re-binding
-        "C09" => vec![("pubsub", "c09", None), ("reqrep", "c09", None), ("pubsub", "c09", None), ("reqrep", "c09", None), ("pubsub", "c08", Some(C09_CORE)), ("reqrep", "c08", Some(C09_CORE)), ("reqrep", "c10", Some(C09_CORE)), ("pubsub", "burst", None), ("reqrep", "burst", None), ("pubsub", "firehose", Some(C09_CORE)), ("reqrep", "firehose", Some(C09_CORE))],
+        "C09" => vec![("pubsub", "c09", None), ("reqrep", "c09", None), ("pubsub", "c09", None), ("reqrep", "c09", None), ("pubsub", "c08", Some(C09_CORE)), ("reqrep", "c08", Some(C09_CORE)), ("reqrep", "c10", Some(C09_CORE)), ("reqrep", "c11", Some(C09_CORE)), ("pubsub", "burst", None), ("reqrep", "burst", None), ("pubsub", "firehose", Some(C09_CORE)), ("reqrep", "firehose", Some(C09_CORE))],
         // late repliers and successors that arrive in the middle of a registration storm
         "C10" => vec![("reqrep", "c10", None), ("reqrep", "burst", Some(C10_STORM))],
         // "accepted and then silently abandoned" also covers repliers that race for a topic: each must end up
